@@ -251,7 +251,8 @@ def run_case(case):
                 if integ == 'ias15':
                     eps_ = spec['opts'].get('ri_ias15.epsilon', 1e-9)
                     # machine-precision class for the default tolerance; ten times the tolerance costs about a decade (measured 7.7e-12 over 1e4 steps at 1e-8)
-                    lim = (1e-12 if eps_ <= 1e-9 else 1e-10 if eps_ <= 1e-8 else 1e-6) if 'ri_ias15.min_dt' not in spec['opts'] else 1e-6
+                    # (rounding grows like sqrt(steps): 1.24e-12 was measured after 10000 steps on the unchanged tree, thorough seed 10)
+                    lim = (1e-12 * max(1.0, math.sqrt(nsteps / 2500.0)) if eps_ <= 1e-9 else 1e-10 if eps_ <= 1e-8 else 1e-6) if 'ri_ias15.min_dt' not in spec['opts'] else 1e-6
                     if gt(mE, lim):
                         add('conserve:energy-class:ias15', '%s: max |dE/E| = %.3e' % (desc, mE))
                 elif integ == 'bs':
@@ -308,11 +309,15 @@ def run_case(case):
             if integ == 'whfast':
                 opts['ri_whfast.coordinates'] = rr.choice(['jacobi', 'democraticheliocentric', 'whds', 'barycentric'])
             grid_ = 0.0
+            gridx_ = 0.0
             if integ == 'janus':
                 # JANUS keeps its own integer copy of the coordinates: after a merger it has to follow the shrunken particle array
-                opts['ri_janus.scale_pos'] = 1e-16
+                # (position grid 1e-14: JANUS's box is 2^63 grid units wide - at 1e-16 a boosted system drifts out of +-922 within the thorough
+                #  tier's 3000 steps and the integers wrap, thorough seed 9)
+                opts['ri_janus.scale_pos'] = 1e-14
                 opts['ri_janus.scale_vel'] = 1e-16
                 grid_ = 1e-16
+                gridx_ = 1e-14
             spec = dict(integrator=integ, system=sysd, opts=opts, dt=gen.inner_period(sysd) / 40.7, collision='direct', collision_resolve='merge')
             sim = gen.build_sim(spec)
             G = sim.G
@@ -362,7 +367,7 @@ def run_case(case):
                     mtot_ = s0['M']
                     if gt(dP, case['KP'] * EPS * s0['Sp'] * math.sqrt(n) + 64 * grid_ * mtot_ * N0):
                         add('merge:linear-momentum:%s' % integ, '%s: |dP| = %.3e = %.1f x eps S_p sqrt(n) after a merger at step %d' % (desc, dP, dP / (EPS * s0['Sp'] * math.sqrt(n)), step))
-                    if gt(dX, case['KP'] * EPS * (s0['Sx'] + s0['Sp'] * abs(T)) * math.sqrt(n) + 64 * grid_ * mtot_ * N0 * (1 + abs(T))):
+                    if gt(dX, case['KP'] * EPS * (s0['Sx'] + s0['Sp'] * abs(T)) * math.sqrt(n) + mtot_ * ((64 * N0 + 4 * n) * gridx_ + 64 * N0 * grid_ * abs(T))):        # JANUS truncates its integer drift: n x grid, not sqrt(n)
                         add('merge:centre-of-mass-not-uniform:%s' % integ, '%s: |X_com - X0 - V t| = %.3e after a merger at step %d' % (desc, dX, step))
                     lastN = sim.N
                 if sim.N < 2:
